@@ -126,6 +126,17 @@ func runLinkedMapOrder[K comparable](c *core.Ctx, d *Dom[K]) {
 		steps = 1200
 	}
 	for s := 0; s < steps; s++ {
+		if r.Intn(4) == 0 {
+			// reads are part of the history: an access never moves a key
+			k := d.AnyVal(r)
+			c.Begin(name, "Get", k)
+			v, ok := m.Get(k)
+			if wv, wok := cur[k]; ok != wok || v != wv {
+				c.Fail("get", "", "%s.Get(%v) = (%v,%v), want (%v,%v)", name, k, v, ok, wv, wok)
+			}
+			check()
+			continue
+		}
 		switch r.Pick(50, 30, 8, btoi(len(d.Alpha) < 200)*2) {
 		case 0:
 			k := d.Val(r)
@@ -248,6 +259,15 @@ func runLinkedSetOrder[T comparable](c *core.Ctx, d *Dom[T]) {
 		steps = 1200
 	}
 	for st := 0; st < steps; st++ {
+		if r.Intn(4) == 0 {
+			v := d.AnyVal(r)
+			c.Begin(name, "Contains", v)
+			if got, want := s.Contains(v), slices.Contains(order, v); got != want {
+				c.Fail("contains", "", "%s.Contains(%v) = %v, want %v", name, v, got, want)
+			}
+			check()
+			continue
+		}
 		switch r.Pick(50, 30, 8, btoi(len(d.Alpha) < 200)*2) {
 		case 0:
 			k := varCount(r)
